@@ -336,7 +336,7 @@ register_derived_unit("tbsp", "tablespoon", MILLILITRE, multiple=17.7582)
 register_derived_unit("floz", "fluidounce", MILLILITRE, multiple=28.4130625)
 register_derived_unit("cup", "cup", MILLILITRE, multiple=284.13)
 register_derived_unit("gill", "gill", MILLILITRE, multiple=142.0653125)
-register_derived_unit("pt", "pint", MILLILITRE, multiple=586.26125)
+register_derived_unit("pt", "pint", MILLILITRE, multiple=568.26125)
 register_derived_unit("qt", "quart", MILLILITRE, multiple=1136.5225)
 register_derived_unit("gal", "gallon", MILLILITRE, multiple=4546.09)
 register_derived_unit("gr", "grain", GRAM, multiple=0.0648)
